@@ -9,6 +9,17 @@ same-clause expressions, negation, several heads, facts, attached conditions, ad
       core_of_prog (desugar_prog [] P) (strat_fix), both under Syntax/C07Vocab.v c07_interp
   (4) structure: the rules the macro's desugaring produced (FRONT dump) = Syntax/Desugar.v desugar_prog run
       from the counter state the dump started in (exact), and = desugar_prog [] up to a constant renumbering.
+
+Packagings (a sugared form must mean its expansion whatever index types the generated code is compiled against):
+  * macro: `ascent!` and, for a slice of the general programs and half of the family `negfam`, `ascent_par!`
+    (sugared text and hand expansion under the same macro);
+  * relations: default ones, column-less ones, and (family `negfam`, gen/c07_neg.py) relations tagged
+    `#[ds(ascent_byods_rels::eqrel | trrel | trrel_uf)]`; the specification of a program with a tagged relation is the
+    program over plain relations plus the provider's explicit closure rules (sides (3) evaluate that program; sides (1),
+    (2) and (4) keep the tag);
+  * family `negfam`: negations with every subset of their arguments wildcarded (ALL wildcards = emptiness test, and `!r()`
+    of a column-less relation included), first / last / sole body item, with inputs in which the negated relation is
+    completely empty and inputs in which it is not.
 """
 import concurrent.futures as cf
 import json
@@ -18,6 +29,7 @@ from collections import Counter
 
 from .. import c07_gen as G
 from .. import c07_hir as H
+from .. import c07_neg as N
 from .. import c07_oracle as O
 from .. import dl, engine_tie, gen_dl, lib, prog
 
@@ -38,6 +50,7 @@ PRELUDE = ("From Coq Require Import List ZArith Bool String Ascii.\n"
            "From AV Require Import Syntax.ToCore.\n"
            "From AV Require Import Syntax.Show.\n"
            "From AV Require Import Syntax.C07Vocab.\n"
+           "From AV Require Import Syntax.NegIndexModel.\n"
            "Import ListNotations.\nOpen Scope Z_scope.\nOpen Scope string_scope.\n")
 TIMING = {}
 ALT_COUNTERS = '[(i "x1", 3%nat); (i "expr_replaced", 2%nat); (i "x2", 1%nat); (i "x3", 7%nat)]'
@@ -52,13 +65,32 @@ def load_corpus():
             line = line.strip()
             if line:
                 o = json.loads(line)
-                out.append(dict(id="c07_" + o["id"], prog=G.norm_prog(o["prog"]), inputs=o["inputs"], corpus=True, adversarial=o.get("names", [])))
+                out.append(dict(id="c07_" + o["id"], prog=norm_prog(o["prog"]), inputs=o["inputs"], corpus=True, adversarial=o.get("names", []),
+                                macro=o.get("macro", "ascent")))
     return out
+
+
+def norm_prog(p):
+    p = G.norm_prog(p)
+    p["rels"] = N.norm_rels(p["rels"])
+    return p
+
+
+def gen_neg_cases(tier, seed):
+    """family `negfam` (gen/c07_neg.py): every second program under ascent_par!"""
+    n = 32 if tier == "quick" else 160
+    cases = []
+    for k in range(n):
+        rng = lib.rng_for(seed, PROP, "negfam%d" % k)
+        par = k % 2 == 1
+        p = N.gen_neg_program(rng, k, par)
+        cases.append(dict(id="c07_n%d" % k, prog=p, inputs=N.neg_inputs(rng, p), adversarial=[], macro="ascent_par" if par else "ascent", family="negfam"))
+    return cases
 
 
 def gen_cases(tier, seed):
     rng = lib.rng_for(seed, PROP)
-    n = 66 if tier == "quick" else 1000
+    n = 66 if tier == "quick" else 880       # (+ 160 programs of the family negfam: thorough stays within its 20 min)
     cases = []
     for k in range(n):
         p = G.gen_program(rng)
@@ -75,8 +107,9 @@ def gen_cases(tier, seed):
             jr = G.add_join_repeat(rng2, p)
             if jr:
                 inputs = G.join_repeat_inputs(rng2, p, jr)
-        cases.append(dict(id="c07_%d" % k, prog=p, inputs=inputs, adversarial=names, join_repeat=jr))
-    return cases
+        # every 4th program through the parallel macro (sugared text and hand expansion alike)
+        cases.append(dict(id="c07_%d" % k, prog=p, inputs=inputs, adversarial=names, join_repeat=jr, macro="ascent_par" if k % 4 == 3 else "ascent"))
+    return cases + gen_neg_cases(tier, seed)
 
 
 def has_strata_items(p):
@@ -92,33 +125,35 @@ def has_strata_items(p):
 
 def coq_group(c, cs):
     """Coq expressions of one program: wf, printed desugarings, per input (surface, desugared [], desugared ALT)"""
-    p = c["prog"]
+    p = c["prog"]            # the program as written (structure: what the macro desugars)
+    sp = c["spec"]           # its specification: tagged relations replaced by plain ones + explicit closure rules (= p without tags)
     R = dl.Names()
     for name, _, _ in p["rels"]:
         R(name)
     P = G.c_prog(p["rules"], R)
-    if has_strata_items(p) or c["idx"] % 2 == 0:
-        strata = engine_tie.stratify(p["rules"])
+    SP = P if sp is p else G.c_prog(sp["rules"], R)
+    if has_strata_items(sp) or sp is not p or c["idx"] % 2 == 0:
+        strata = engine_tie.stratify(sp["rules"])
     else:
-        strata = [list(range(len(p["rules"])))]       # one stratum = snaive_fix / naive_fix of the whole program
+        strata = [list(range(len(sp["rules"])))]       # one stratum = snaive_fix / naive_fix of the whole program
     offs, o = [], 0
-    for r in p["rules"]:
+    for r in sp["rules"]:
         n = G.count_expansions(r["body"])
         offs.append(list(range(o, o + n)))
         o += n
-    s_strata = dl.coq_list(G.c_prog([p["rules"][j] for j in comp], R) for comp in strata)
+    s_strata = dl.coq_list(G.c_prog([sp["rules"][j] for j in comp], R) for comp in strata)
     d_idx = dl.coq_list(dl.cnats([k for j in comp for k in offs[j]]) for comp in strata)
-    exprs = ["wf_surface %s" % P,
+    exprs = ["wf_surface %s" % SP,
              "show_prog (desugar_prog %s %s)" % (H.coq_counters(cs), P),
              "show_prog (desugar_prog [] %s)" % P,
-             "(List.length (desugar_prog [] %s), match core_of_prog (desugar_prog [] %s) with Some _ => true | None => false end)" % (P, P)]
+             "(List.length (desugar_prog [] %s), match core_of_prog (desugar_prog [] %s) with Some _ => true | None => false end)" % (SP, SP)]
     dummy = "{| heads := []; body := [] |}"
 
     def desugared(counters, f0):
         return ("match core_of_prog (desugar_prog %s %s) with Some C => strat_fix c07_interp %d%%nat (map (map (fun k => nth k C %s)) %s) %s | None => None end"
-                % (counters, P, FUEL, dummy, d_idx, f0))
+                % (counters, SP, FUEL, dummy, d_idx, f0))
     for inp in c["inputs"]:
-        f0 = dl.coq_facts(engine_tie.facts_of_input(inp, p["rels"]), R)
+        f0 = dl.coq_facts(engine_tie.facts_of_input(inp, sp["rels"]), R)
         alt = desugared(ALT_COUNTERS, f0) if c["idx"] % 3 == 0 else "@None (list fact)"
         exprs.append("(sstrat_fix c07_interp %d%%nat %s %s, %s, %s)" % (FUEL, s_strata, f0, desugared("[]", f0), alt))
     inv = {v: k for k, v in R.d.items()}
@@ -129,21 +164,24 @@ def ensure_coq():
     """the modules the evaluation imports (Show.v is not in the closure of the property file)"""
     with lib.Lock("coq"):
         lib.coq_makefile()
-        rc, out = lib.sh(["timeout", "1500", "make", "-j%d" % lib.NCPU, "Syntax/Show.vo", "Syntax/C07Vocab.vo", "Syntax/ToCore.vo", "Engine/Strat.vo", "Engine/Vocab.vo"], cwd=lib.COQ, timeout=1600)
+        rc, out = lib.sh(["timeout", "1500", "make", "-j%d" % lib.NCPU, "Syntax/Show.vo", "Syntax/C07Vocab.vo", "Syntax/NegIndexModel.vo", "Syntax/ToCore.vo", "Engine/Strat.vo", "Engine/Vocab.vo"], cwd=lib.COQ, timeout=1600)
     if rc:
         raise lib.Infra("cannot build the Coq modules of the C07 tie:\n" + out[-3000:])
 
 
-def run_cases(cases, tag="c07", coq_timeout=50):
+def run_cases(cases, tag="c07", coq_timeout=50, probes=()):
     ensure_coq()
     for k, c in enumerate(cases):
         c["idx"] = k
+        c.setdefault("macro", "ascent")
+        c["spec"] = N.spec_program(c["prog"])
+        c["obs"] = N.observed_rels(c["prog"])
         c["text"] = G.program_text(c["prog"])
         c["expanded"] = G.expand_program(c["prog"])
         c["expanded_text"] = G.program_text(c["expanded"])
         c["feats"] = G.program_features(c["prog"])
     t0 = time.time()
-    dumps = prog.front_run([(c["id"], "ascent", c["text"]) for c in cases])
+    dumps = prog.front_run([(c["id"], c["macro"], c["text"]) for c in cases])
     timing = dict(front=round(time.time() - t0, 1))
     jobs, adv_jobs = [], []
     for c in cases:
@@ -154,8 +192,8 @@ def run_cases(cases, tag="c07", coq_timeout=50):
             # programs with adversarial names (and those hitting the known compile-time defect) may fail to compile:
             # their own crate, so that blaming them does not rebuild everything else
             risky = c.get("adversarial") or c.get("corpus") or G.shape_attached_repeat(c["prog"])
-            (adv_jobs if risky else jobs).append(dict(id=c["id"] + "_s", text=c["text"], macro="ascent", rels=c["prog"]["rels"], scripts=scripts))
-        jobs.append(dict(id=c["id"] + "_e", text=c["expanded_text"], macro="ascent", rels=c["prog"]["rels"], scripts=scripts))
+            (adv_jobs if risky else jobs).append(dict(id=c["id"] + "_s", text=c["text"], macro=c["macro"], rels=c["prog"]["rels"], scripts=scripts))
+        jobs.append(dict(id=c["id"] + "_e", text=c["expanded_text"], macro=c["macro"], rels=c["prog"]["rels"], scripts=scripts))
     groups, meta = [], []
     for c in cases:
         cs = H.infer_counters(c["front"])
@@ -164,6 +202,9 @@ def run_cases(cases, tag="c07", coq_timeout=50):
         c["inv"], c["R"], c["n_desugared"] = inv, R, nd
         groups.append(ex)
         meta.append(c)
+    for pr in probes:
+        jobs.append(pr["job"])
+        groups.append(pr["exprs"])
 
     def build():
         t1 = time.time()
@@ -188,6 +229,9 @@ def run_cases(cases, tag="c07", coq_timeout=50):
         timing["coq"] = round(time.time() - t1, 1)
         impl = fut.result()
     TIMING.update(timing)
+    for pr, v in zip(probes, vals[len(meta):]):
+        pr["coq"] = v
+        pr["impl"] = impl.get(pr["id"])
     for c, v in zip(meta, vals):
         c["coq"] = v
         c["impl_s"] = impl.get(c["id"] + "_s")
@@ -251,12 +295,52 @@ def compile_defect(c, iv_s, i2, spec):
     return None
 
 
+def compare_probe(pr, stats):
+    """the answers of the real indices for a key (without / with rows) vs Syntax/NegIndexModel.v index_get"""
+    mism = []
+    if pr.get("coq") is None:
+        raise lib.Infra("index probe %s: no Coq value" % pr["id"])
+    for k, rows in enumerate(N.PROBE_ROWS):
+        iv = pr["impl"][k] if pr.get("impl") else None
+        cs = dict(id=pr["id"], macro=pr["macro"], program=pr["program"], input=dict(f=rows), probe="index_get(&()).is_some() of a_indices_none, index_get(&(%d,)).is_some() of a_indices_0, after run()" % N.PROBE_KEY)
+        if not isinstance(iv, dict) or "snaps" not in iv:
+            mism.append(dict(case=cs, impl=iv, model=dict(kind=pr["model_kind"]), spec=None, kind="model_differs", known=None,
+                             what="index probe (%s) did not run: the index fields / traits named by Syntax/NegIndexModel.v changed? %s" % (pr["packaging"], json.dumps(iv)[:300])))
+            break
+        s = prog.canon_snap(iv["snaps"][-1])
+        got = (s["keyless"][1][0][0], s["keyed"][1][0][0])
+        want = tuple(pr["coq"][k])
+        stats["index_probe_answers"] += 1
+        if got != want:
+            mism.append(dict(case=cs, impl=dict(keyless_is_some=got[0], keyed_is_some=got[1]), model=dict(kind=pr["model_kind"], keyless_is_some=want[0], keyed_is_some=want[1]), spec=None,
+                             kind="model_differs", known=None,
+                             what="Syntax/NegIndexModel.v index_get no longer mirrors the real index (%s, relation a = %s): is_some() of ([] index, [0] index on key %d) = %s, model %s"
+                                  % (pr["packaging"], rows, N.PROBE_KEY, got, want)))
+    return mism
+
+
+def note_neg_reads(c, spec_sets, stats):
+    """coverage counters: negations evaluated while the negated relation is completely empty / not (per (program, input));
+    the contents of the negated relation are those of the specification (it lies in a lower stratum: final = at run time)"""
+    kinds = {n: k for n, _, k in c["prog"]["rels"]}
+    for it in N.negations(c["prog"]):
+        state = "empty" if not spec_sets[it[1]] else "nonempty"
+        rk = N.PATH_TO_PROVIDER[kinds[it[1]][1]] if N.is_ds(kinds[it[1]]) else "default"
+        stats["negread:%s:%s:%s:%s" % (N.mask_kind(it[2]), rk, c["macro"], state)] += 1
+
+
 def compare(c, stats):
     """mismatch dicts of one program"""
     mism = []
     p = c["prog"]
-    rels = p["rels"]
-    base = dict(id=c["id"], program=c["text"], expanded=c["expanded_text"], prog=p, adversarial_names=c.get("adversarial", []))
+    rels = c["spec"]["rels"]          # the Coq sides are compared on every relation,
+    obs = c["obs"]                    # the compiled programs on the relations that can be observed (a tagged relation's field is a FakeVec)
+
+    def seen(sets):
+        return None if sets is None else {name: sets[name] for name, _, _ in obs}
+    base = dict(id=c["id"], macro=c["macro"], program=c["text"], expanded=c["expanded_text"], prog=p, adversarial_names=c.get("adversarial", []))
+    if c["spec"] is not p:
+        base["specification_program"] = G.program_text(c["spec"])
     v = c["coq"]
     if v is None:
         stats["skipped_coq_timeout"] += 1
@@ -338,13 +422,15 @@ def compare(c, stats):
     nforms = sum(1 for f in G.SUGAR_FORMS if c["feats"].get(f))
     for k, inp in enumerate(c["inputs"]):
         cs = dict(base, input=inp)
-        i1 = impl_sets(c["impl_s"][k] if c["impl_s"] else None, rels)
-        i2 = impl_sets(c["impl_e"][k] if c["impl_e"] else None, rels)
+        i1 = impl_sets(c["impl_s"][k] if c["impl_s"] else None, obs)
+        i2 = impl_sets(c["impl_e"][k] if c["impl_e"] else None, obs)
+        Sk = seen(S[k])
+        note_neg_reads(c, S[k], stats)
         if any(isinstance(r, dict) and r.get("timeout") for r in ((c["impl_s"] or [None] * (k + 1))[k], (c["impl_e"] or [None] * (k + 1))[k])):
             stats["skipped_compiled_program_too_slow"] += 1      # (also after the one-binary-per-program rerun)
             continue
         if i1 is None:
-            kd = compile_defect(c, c["impl_s"][k] if c["impl_s"] else None, i2, S[k])
+            kd = compile_defect(c, c["impl_s"][k] if c["impl_s"] else None, i2, Sk)
             if kd:
                 stats["compile_defect:" + kd] += 1
             mism.append(dict(case=cs, impl=c["impl_s"][k] if c["impl_s"] else None, model=None, spec=dict(surface=S[k]), kind="impl_violates_spec", known=kd or known,
@@ -361,20 +447,20 @@ def compare(c, stats):
             stats["distinct"] += 1
         if i1 != i2:
             mism.append(dict(case=cs, impl=dict(sugared=i1), model=dict(desugared_model=D[k]), spec=dict(hand_expansion=i2, surface=S[k]), kind="impl_violates_spec", known=known,
-                             what="the sugared program and its documented core expansion compute different relations (%s)" % first_diff(i1, i2, rels)))
-        elif i1 != S[k]:
+                             what="the sugared program and its documented core expansion compute different relations under %s! (%s)" % (c["macro"], first_diff(i1, i2, obs))))
+        elif i1 != Sk:
             # sugared = hand expansion (both through the real macro) but not the Coq direct denotation: the independent
             # python oracle says which side is wrong
             try:
-                orc = O.evaluate(p, inp)
+                orc = O.evaluate(c["spec"], inp)
             except O.Fuel:
                 orc = None
             if orc == S[k]:
                 mism.append(dict(case=cs, impl=dict(sugared=i1, hand_expansion=i2), model=dict(desugared_model=D[k]), spec=dict(surface_coq=S[k], python_oracle=orc), kind="impl_violates_spec", known=known,
-                                 what="the sugared program (and its hand expansion through the same macro alike) computes relations different from the specification = Coq direct denotation = python oracle (%s)" % first_diff(i1, S[k], rels)))
+                                 what="the sugared program (and its hand expansion through the same macro alike) computes relations different from the specification = Coq direct denotation = python oracle, under %s! (%s)" % (c["macro"], first_diff(i1, Sk, obs))))
             else:
                 mism.append(dict(case=cs, impl=dict(sugared=i1, hand_expansion=i2), model=dict(surface=S[k]), spec=dict(python_oracle=orc), kind="model_differs", known=None,
-                                 what="Surface.v direct denotation disagrees with the macro on both the sugared and the hand-expanded program and with the python oracle (%s)" % first_diff(i1, S[k], rels)))
+                                 what="Surface.v direct denotation disagrees with the macro on both the sugared and the hand-expanded program and with the python oracle (%s)" % first_diff(i1, Sk, obs)))
 
         if capture and i1 == i2:
             stats["capture_not_manifest_in_rustc_process"] += 1
@@ -387,13 +473,16 @@ def tie(tier, seed, replay):
     if replay:
         r = json.load(open(replay if os.path.isabs(replay) else os.path.join(lib.VERIF, replay)))
         cs = r["case"]
-        cases = [dict(id=cs.get("id", "c07_replay"), prog=G.norm_prog(cs["prog"]), inputs=[cs["input"]] if "input" in cs else cs["inputs"],
-                      adversarial=cs.get("adversarial_names", []))]
+        cases = [dict(id=cs.get("id", "c07_replay"), prog=norm_prog(cs["prog"]), inputs=[cs["input"]] if "input" in cs else cs["inputs"],
+                      adversarial=cs.get("adversarial_names", []), macro=cs.get("macro", "ascent"))]
     else:
         cases = load_corpus() + gen_cases(tier, seed)
-    run_cases(cases, coq_timeout=50 if tier == "quick" else 60)
+    probes = [] if replay else N.probes()
+    run_cases(cases, coq_timeout=50 if tier == "quick" else 60, probes=probes)
     stats = Counter()
     mism = []
+    for pr in probes:
+        mism += compare_probe(pr, stats)
     feats, progs_with = Counter(), Counter()
     for c in cases:
         mism += compare(c, stats)
@@ -404,19 +493,36 @@ def tie(tier, seed, replay):
         if njr:
             feats["second_clause_repeats_var_of_first"] += njr
             progs_with["second_clause_repeats_var_of_first"] += 1
+        for f, n in N.neg_features(c["prog"], c["macro"]).items():
+            feats[f] += n
+            progs_with[f] += 1
+        progs_with["macro:" + c["macro"]] += 1
+        if c.get("family"):
+            progs_with["family:" + c["family"]] += 1
+        for n, a, kd in c["prog"]["rels"]:
+            if N.is_ds(kd):
+                feats["relation:%s/%d:%s" % (N.PATH_TO_PROVIDER[kd[1]], a, c["macro"])] += 1
+            elif a == 0:
+                feats["relation:no_columns:%s" % c["macro"]] += 1
         if c.get("adversarial"):
             progs_with["adversarial_names"] += 1
             for nm in c["adversarial"]:
                 feats["adversarial:" + (nm if nm in G.NASTY_FIXED else "<var>" + nm[nm.rindex("_"):])] += 1
     samples = [c["text"] for c in cases if not c.get("corpus")][:3] + [c["text"] for c in cases if c.get("adversarial") and not c.get("corpus")][:2]
+    samples += ["%s! { %s }" % (c["macro"], c["text"]) for c in cases if c.get("family") == "negfam"][:3]
+    negreads = {k[len("negread:"):]: v for k, v in stats.items() if k.startswith("negread:")}
+    outcome = {k: v for k, v in stats.items() if not k.startswith("negread:")}
     exp_sample = [dict(sugared=c["text"], hand_expansion=c["expanded_text"]) for c in cases if c["feats"].get("disj") and c["feats"].get("repeated_var")][:1]
     return dict(
         evaluations=stats["evaluations"], distinct_nontrivial=stats["distinct"],
-        rule="generated sugared programs (relations on levels, negation only downwards) x 2-3 input databases; counted: (program, input) pairs on which the sugared program through macro+rustc, its python hand expansion through macro+rustc, and the Coq surface denotation all produced relations (the Coq desugared core program is compared on top, it must agree when wf_surface holds), and whose program uses >= 2 distinct sugar forms among %s" % ", ".join(G.SUGAR_FORMS),
+        rule="generated sugared programs (relations on levels, negation only downwards; general generator + family negfam; ascent! and ascent_par!; default, column-less and BYODS-tagged relations) x 2-4 input databases; counted: (program, input) pairs on which the sugared program through macro+rustc, its python hand expansion through macro+rustc, and the Coq surface denotation all produced relations (the Coq desugared core program is compared on top, it must agree when wf_surface holds), and whose program uses >= 2 distinct sugar forms among %s" % ", ".join(G.SUGAR_FORMS),
         samples=samples + exp_sample,
-        distribution=dict(programs=len(cases), occurrences=dict(feats), programs_using=dict(progs_with), outcome=dict(stats)),
+        distribution=dict(programs=len(cases), occurrences=dict(feats), programs_using=dict(progs_with), outcome=outcome,
+                          negations_evaluated=dict(note="(wildcard mask kind):(negated relation: default | provider):(macro):(negated relation empty | nonempty in that run), per (program, input) pair that produced relations on all sides", counts=negreads)),
         mismatches=mism,
-        trusted_base=["gen/c07_gen.py: renderers of one AST to Rust text and to Syntax/Surface.v terms, and the hand expansion (a wrong one shows as a false alarm: three independent sides are compared)",
+        trusted_base=["gen/c07_neg.py spec_program: the explicit closure rules standing for a provider-tagged relation (eqrel: reflexive on mentioned elements + symmetric + transitive; trrel: transitive; trrel_uf: reflexive on mentioned elements + transitive; per key for ternary forms) — the specification C10 / C11 / C12 check the providers against",
+                      "Syntax/NegIndexModel.v (code generated for a negated clause over the kinds of index): index_get is tied to the real index types by a probe (6 packagings x 3 relation contents, after run()); the shape of the emitted loop (`into_iter().flatten()` + `not`) is read off ascent_codegen.rs and observed only through the compiled programs",
+                      "gen/c07_gen.py: renderers of one AST to Rust text and to Syntax/Surface.v terms, and the hand expansion (a wrong one shows as a false alarm: three independent sides are compared)",
                       "gen/c07_hir.py: translation of the FRONT dump's desugared rules into Show.v trees (token strings matched against the vocabulary templates of gen/dl.py)",
                       "coq/Syntax/C07Vocab.v vs the Rust patterns / expression templates of the vocabulary",
                       "FRONT hook (ascent_macro/src/verif_hook.rs) dumps what desugar_ascent_program returned; generated crates compiled by rustc against the working tree"],
